@@ -358,7 +358,19 @@ fn error_class_on_purpose(d: &Doc, text: &str, r: &mut Rng) -> (Vec<u8>, String)
                 v.extend_from_slice(b"\xEF\xBB\xBF");
             }
             if r.chance(1, 2) {
-                v.extend_from_slice(b"<?xml version=\"1.0\" encoding=\"utf-8\" standalone=\"yes\"?>");
+                // declarations from tidy to sloppy: quick-xml reports none of them as an error
+                let decl: &[u8] = *r.pick(&[
+                    &b"<?xml version=\"1.0\" encoding=\"utf-8\" standalone=\"yes\"?>"[..],
+                    b"<?xml version='1.0' encoding='ISO-8859-1'?>",
+                    b"<?xml version=1.0?>",
+                    b"<?xml version=\"1.0\" encoding=UTF-8?>",
+                    b"<?xml version=\"1.0\" standalone?>",
+                    b"<?xml?>",
+                    b"<?xml foo?>",
+                    b"<?xml version=\"1.0\" encoding=\"\xFF\"?>",
+                    b"<?xml   version = \"1.1\"   ?>",
+                ]);
+                v.extend_from_slice(decl);
             }
             if r.chance(1, 2) {
                 v.extend_from_slice(b"\n<!-- before -->\n");
